@@ -1,3 +1,206 @@
-import Rtcp.Lemmas.Safe6
+/-
+  C18 — codec operations are pure and safe to run concurrently.
+  (1) histories: over the model's state machine `step`, every result is independent of what was called before;
+  (2) schedules: an abstract shared-memory semantics in which operations with disjoint footprints commute,
+      so any interleaving gives every thread its sequential results (Lemmas/Interleave.lean), instantiated with
+      the write footprints regenerated from the source on every run (Gen/Footprint.lean) — `footprint_ok`.
+  The Go memory model and scheduler themselves are not modelled (DESIGN §6 C18).
+-/
+import Rtcp.Model.Ops
+import Rtcp.Gen.Footprint
+import Rtcp.Lemmas.Interleave
+import Rtcp.Lemmas.Bytes
 namespace Rtcp.C18
+open Rtcp Gen Out
+set_option linter.unusedSimpArgs false
+set_option linter.unusedVariables false
+
+/-! ### (1) call histories on one packet -/
+
+def readOnly : Op → Bool
+  | .size | .dest | .string => true
+  | _ => false
+
+theorem readonly_keeps_state (p : Packet) (o : Op) (h : readOnly o = true) : (step p o).1 = p := by
+  cases o <;> simp [readOnly] at h <;> rfl
+
+theorem setup_wireSize (b : XRBlock) : b.setup.wireSize = b.wireSize := rfl
+
+theorem setup_idem (b : XRBlock) : b.setup.setup = b.setup := by
+  have h1 : b.setup.setupBt = b.setupBt := by
+    simp only [XRBlock.setupBt, XRBlock.setup]; split <;> rfl
+  have h2 : b.setup.setupTs = b.setupTs := by
+    simp only [XRBlock.setupTs, XRBlock.setup]
+    split <;> try rfl
+    split <;> simp_all
+  have h3 : b.setup.wireSize = b.wireSize := rfl
+  show ({ b.setup with bt := b.setup.setupBt, ts := b.setup.setupTs, bl := (b.setup.wireSize / 4 + 65535) % 65536 } : XRBlock) = b.setup
+  rw [h1, h2, h3]; rfl
+
+theorem normalise_idem (p : Packet) : normalise (normalise p) = normalise p := by
+  cases p <;> simp [normalise, setup_idem]
+
+/-- what `Marshal` leaves behind is the normal form (the packet itself for every type but ExtendedReport) -/
+theorem encP_state {p p' : Packet} {b : Bytes} (h : p.encP = .ok (b, p')) : p' = normalise p := by
+  cases p <;> simp only [Packet.encP] at h
+  case xr v =>
+    obtain ⟨⟨b', v'⟩, hv, h⟩ := bind_eq_ok.mp h
+    simp at h
+    unfold XR.enc at hv
+    obtain ⟨_, _, hv⟩ := bind_eq_ok.mp hv
+    obtain ⟨_, _, hv⟩ := bind_eq_ok.mp hv
+    simp at hv
+    rw [← h.2, ← hv.2]; rfl
+  case raw r => simp at h; rw [← h.2]; rfl
+  all_goals (obtain ⟨_, _, h⟩ := bind_eq_ok.mp h; simp at h; rw [← h.2]; rfl)
+
+/-- marshalling the normal form gives the same bytes and the same state as marshalling the original -/
+theorem encP_normalise (p : Packet) : (normalise p).encP = p.encP := by
+  cases p <;> try rfl
+  case xr v =>
+    simp only [normalise, Packet.encP, XR.enc, List.map_map]
+    have : (XRBlock.setup ∘ XRBlock.setup) = XRBlock.setup := by funext b; exact setup_idem b
+    rw [this]
+
+theorem normalise_size (p : Packet) : (normalise p).marshalSize = p.marshalSize := by
+  cases p <;> try rfl
+  case xr v =>
+    simp only [normalise, Packet.marshalSize, XR.marshalSize, XR.wireSize, List.map_map]
+    have : (XRBlock.wireSize ∘ XRBlock.setup) = XRBlock.wireSize := by funext b; exact setup_wireSize b
+    rw [this]
+
+theorem setup_dest (b : XRBlock) : b.setup.dest = b.dest := rfl
+
+theorem normalise_dest (p : Packet) : (normalise p).dest = p.dest := by
+  cases p <;> try rfl
+  case xr v =>
+    simp only [normalise, Packet.dest, XR.dest, List.map_map]
+    have : (XRBlock.dest ∘ XRBlock.setup) = XRBlock.dest := by funext b; exact setup_dest b
+    rw [this]
+
+theorem normalise_kind (p : Packet) : (normalise p).kind = p.kind := by cases p <;> rfl
+
+/-- results do not depend on whether Marshal was called before -/
+theorem step_result_normalise (p : Packet) (o : Op) : (step (normalise p) o).2 = (step p o).2 := by
+  cases o with
+  | marshal => simp only [step, encP_normalise]; cases p.encP <;> rfl
+  | size => simp [step, normalise_size]
+  | dest => simp [step, normalise_dest]
+  | string => rfl
+  | unmarshal b => simp only [step, normalise_kind]; cases decKind p.kind b <;> rfl
+
+def noUnmarshal : Op → Bool
+  | .unmarshal _ => false
+  | _ => true
+
+/-- after any history of Marshal/MarshalSize/DestinationSSRC/String the packet is itself or its normal form -/
+theorem state_after_history (p : Packet) (ops : List Op) (h : ops.all noUnmarshal = true) :
+    runOps p ops = p ∨ runOps p ops = normalise p := by
+  induction ops generalizing p with
+  | nil => left; rfl
+  | cons o os ih =>
+    simp only [List.all_cons, Bool.and_eq_true] at h
+    have hstep : (step p o).1 = p ∨ (step p o).1 = normalise p := by
+      cases o with
+      | marshal =>
+        simp only [step]
+        cases hp : p.encP with
+        | ok r => obtain ⟨b, p'⟩ := r; right; exact encP_state hp
+        | err => left; rfl
+        | panic => left; rfl
+        | diverge => left; rfl
+      | size => left; rfl
+      | dest => left; rfl
+      | string => left; rfl
+      | unmarshal b => simp [noUnmarshal] at h
+    simp only [runOps]
+    rcases hstep with hs | hs
+    · rw [hs]; exact ih p h.2
+    · rw [hs]
+      rcases ih (normalise p) h.2 with h1 | h1
+      · right; exact h1
+      · right; rw [h1, normalise_idem]
+
+/-- **history independence**: whatever was called before (any order, any repetition), every operation returns
+what it returns on the untouched packet -/
+theorem history_independent (p : Packet) (ops : List Op) (o : Op) (h : ops.all noUnmarshal = true) :
+    (step (runOps p ops) o).2 = (step p o).2 := by
+  rcases state_after_history p ops h with hs | hs
+  · rw [hs]
+  · rw [hs, step_result_normalise]
+
+/-- Unmarshal's outcome depends only on the bytes and the Go type, never on the receiver's history -/
+theorem unmarshal_independent (p q : Packet) (b : Bytes) (hk : p.kind = q.kind) :
+    (step p (.unmarshal b)).2 = (step q (.unmarshal b)).2 ∧
+    (∀ r, decKind p.kind b = .ok r → (step p (.unmarshal b)).1 = r ∧ (step q (.unmarshal b)).1 = r) := by
+  simp only [step, hk]
+  constructor
+  · cases decKind q.kind b <;> rfl
+  · intro r hr; simp [hr]
+
+/-- repeated Marshal returns identical bytes -/
+theorem marshal_twice (p : Packet) : (step (step p .marshal).1 .marshal).2 = (step p .marshal).2 :=
+  history_independent p [.marshal] .marshal rfl
+
+/-! ### (2) footprints regenerated from the source -/
+
+/-- operations the property calls read-only (plus the NACK helpers and compound accessors) -/
+def isPureOp (m : String) : Bool :=
+  m = "MarshalSize" || m = "DestinationSSRC" || m = "String" || m = "Header" || m = "Len" || m = "Marshal" ||
+  m = "PacketList" || m = "NackPairsFromSequenceNumbers" || m = "CNAME" || m = "Validate"
+
+/-- Marshal entry points that reach `ExtendedReport.Marshal` through the Packet / PacketStatusChunk interfaces:
+the documented exception (block header fields are filled in) is allowed there, as *field stores only* -/
+def xrException (r m : String) : Bool :=
+  m = "Marshal" && (r = "ExtendedReport" || r = "CompoundPacket" || r = "" || r = "TransportLayerCC")
+
+def fpOk (f : Footprint) : Bool :=
+  f.writesGlobals.isEmpty && !f.writesUnknown &&
+  (if f.recv = "" && f.method = "Unmarshal" then f.writesParams.isEmpty
+   else if f.method = "Unmarshal" then f.writesParams.all (· == 0)
+   else if xrException f.recv f.method then f.writesParams.all (· == 0) && f.elemWritesParams.isEmpty
+   else if isPureOp f.method then f.writesParams.isEmpty
+   else true)
+
+set_option maxRecDepth 100000 in
+/-- on the current source: no function of the package writes a package variable or untraceable memory;
+Marshal (except through ExtendedReport), MarshalSize, DestinationSSRC, String, Header, Len write nothing that
+is not freshly allocated; every Unmarshal writes only through its receiver and never through its argument.
+Re-proved against Gen/Footprint.lean on every run. -/
+theorem footprint_ok : footprints.all fpOk = true := by decide
+
+/-! ### from footprints to schedules -/
+
+open Interleave in
+/-- an API call on packet number `pkt` as an abstract operation: it reads that packet's memory and, when it is a
+writer (Unmarshal, ExtendedReport.Marshal), writes only that packet's memory — which is what `footprint_ok` gives -/
+def apiOp (pkt : Loc) (writer : Bool) (run : Mem → Mem × Nat) : AOp :=
+  { reads := [pkt], writes := if writer then [pkt] else [], run := run }
+
+open Interleave in
+theorem distinct_packets_independent (i j : Loc) (wi wj : Bool) (ri rj : Mem → Mem × Nat) (h : i ≠ j) :
+    noInterf (apiOp i wi ri) (apiOp j wj rj) := by
+  intro l hl
+  cases wi <;> simp [apiOp] at hl
+  subst hl
+  cases wj <;> simp [apiOp, h]
+
+open Interleave in
+theorem readonly_on_shared_packet_independent (i j : Loc) (wj : Bool) (ri rj : Mem → Mem × Nat) :
+    noInterf (apiOp i false ri) (apiOp j wj rj) := by
+  intro l hl; simp [apiOp] at hl
+
+open Interleave in
+/-- **schedules**: two goroutines, one working on packet `i`, the other on packet `j ≠ i` (any mix of operations),
+or both issuing read-only operations on a shared packet: under every interleaving each goroutine observes exactly
+the results of running alone. -/
+theorem concurrent_eq_sequential (xs ys : List AOp) (zs : List (Bool × AOp)) (h : Interleaving xs ys zs)
+    (hxs : ∀ a ∈ xs, a.WF) (hys : ∀ b ∈ ys, b.WF) (hindep : ∀ a ∈ xs, ∀ b ∈ ys, noInterf b a) (m : Mem) :
+    resultsOf true zs m = results xs m :=
+  interleaving_results_left xs ys zs h hxs hys hindep m
+
+/-- non-vacuity: an XR packet whose Marshal changes its state, and a history that ends in the same results -/
+example : (step (.xr { sender := 1, blocks := [{ kind := 4, vals := [5] }] }) .marshal).1
+    ≠ (.xr { sender := 1, blocks := [{ kind := 4, vals := [5] }] } : Packet) := by decide
+
 end Rtcp.C18
